@@ -15,7 +15,7 @@ Definition w_via := mkPacket 1 nameA nameC nameB mock_port (of_string "x").   (*
 Definition w_stripped := mkPacket 1 nameA nameC [] mock_port (of_string "x"). (* presented: no relay *)
 Definition w_port := mkPacket 1 nameA nameC nameB (of_string "NFT") (of_string "x"). (* presented: other port *)
 
-Definition w_ops : list nop :=
+Definition w_ops : list (nop unit) :=
   [ NCreate 0 1 100 2 90 1000; NCreate 2 0 100 2 90 1000; NCreate 1 0 100 2 90 1000;
     NCreate 1 2 100 2 90 1000; NCreate 2 1 100 2 90 1000;
     NChain 1 100 (OSetRules [of_string "*,*,*"]);
@@ -69,7 +69,7 @@ Theorem C13_src_dst_seq_data_bound :
          (on_recv : A -> packet -> option (A * option bytes))
          (on_ack : A -> packet -> bytes -> option A),
     (forall x y, H x = H y -> x = y) ->
-    forall (n0 : net A) (ops : list nop) (i : nat) (ci : chain A) (now : N)
+    forall (n0 : net A) (ops : list (nop A)) (i : nat) (ci : chain A) (now : N)
            (p : packet) (pf : proof) (h : N) (c' : chain A) (ev : list event),
       net_init A n0 -> Forall nop_ok ops -> wfp p ->
       nth_error (nrun A H has_route on_recv on_ack n0 ops) i = Some ci ->
